@@ -28,6 +28,8 @@ type LLoad struct {
 	Faults []core.DiskFault `json:"faults,omitempty"` // Op relative to the first disk operation of the load
 	During []LSaveAt        `json:"during,omitempty"` // editor saves between the load's disk operations
 	NestAt int              `json:"nest_at,omitempty"`
+	Tree   bool             `json:"tree_dump,omitempty"` // WithTreeDump
+	Code   bool             `json:"code_dump,omitempty"` // WithCodeDump
 	Nested *LLoad           `json:"nested,omitempty"` // a reload performed when the NestAt-th marker of this load runs
 }
 
@@ -72,7 +74,7 @@ func (loader) Describe() core.EngineInfo {
 		Real:       []string{"goatlang loader (loadPackage, loadImports, rawLoadPackage, rawLoadFile, checkConstraint, joinFiles, treeSort), parser, compiler, VM via Load/Eval"},
 		Stubs:      []string{"os.DirFS -> SimDisk", "host.Mark native records the init history"},
 		Assumes:    []string{"each package exists in exactly one of the searched places", "a package hit by a disk fault may be skipped silently (fs.Glob swallows listing errors; a vanished file reads as 'package does not exist'): judged relative to what was served", "intra-package order of initialisers is not judged (C16)"},
-		ProbesWant: []string{"load_ok", "load_err", "cycle_rejected", "conflict_rejected", "layout_vendor", "layout_short", "decoy_test_present", "decoy_constraint_present", "nested_load", "fault:eio-open", "fault:vanish", "fault:eio-readdir", "fault:edit", "diamond", "entry_eval"},
+		ProbesWant: []string{"load_ok", "load_err", "cycle_rejected", "conflict_rejected", "layout_vendor", "layout_short", "decoy_test_present", "decoy_constraint_present", "nested_load", "fault:eio-open", "fault:vanish", "fault:eio-readdir", "fault:edit", "diamond", "entry_eval", "with_tree_dump", "with_code_dump"},
 	}
 }
 
@@ -100,6 +102,7 @@ func (e loader) genLoad(r *core.PRNG, w *LWorld, faulty bool, depth int) LLoad {
 	if faulty && r.Chance(1, 2) {
 		l.Faults = append(l.Faults, core.DiskFault{Op: 1 + r.Intn(40), Kind: core.Pick(r, hsDiskFaultKinds), Arg: r.Intn(100)})
 	}
+	l.Tree, l.Code = r.Chance(1, 5), r.Chance(1, 5)
 	if depth == 0 && r.Chance(1, 6) {
 		l.NestAt = 1 + r.Intn(8)
 		n := e.genLoad(r, w, false, 1)
@@ -290,9 +293,9 @@ func (run *loaderRun) doLoad(l *LLoad, depth int) {
 			}
 		}
 		run.h.C.Inc("entry_eval")
-		_, err = run.h.Eval("stdin", strings.Join(src, "; "))
+		_, err = run.h.Eval("stdin", strings.Join(src, "; "), run.dumpOpts(l)...)
 	} else {
-		err = run.h.Load("main")
+		err = run.h.Load("main", run.dumpOpts(l)...)
 	}
 	run.stack = run.stack[:len(run.stack)-1]
 	d.Faults, d.Edits = nil, nil
@@ -302,6 +305,20 @@ func (run *loaderRun) doLoad(l *LLoad, depth int) {
 		outer.skipFault = append(outer.skipFault, [2]int{c.faultFrom, len(d.FaultLog)})
 	}
 	run.judge(l, c, tops, err)
+}
+
+// dumpOpts: the run options of cli's -tree and -code flags; they must not change what a load does.
+func (run *loaderRun) dumpOpts(l *LLoad) []goatlang.RunOption {
+	var o []goatlang.RunOption
+	if l.Tree {
+		run.h.C.Inc("with_tree_dump")
+		o = append(o, goatlang.WithTreeDump(&core.SimWriter{Name: "tree", MaxKeep: 1}))
+	}
+	if l.Code {
+		run.h.C.Inc("with_code_dump")
+		o = append(o, goatlang.WithCodeDump(&core.SimWriter{Name: "code", MaxKeep: 1}))
+	}
+	return o
 }
 
 func inRanges(i int, rs [][2]int) bool {
@@ -665,6 +682,9 @@ func (loader) Shrink(plan any) []func() any {
 		}
 		if l.Entry == "eval" {
 			mod(func(q *LoaderPlan) { q.Loads[i].Entry, q.Loads[i].Tops = "load", nil })
+		}
+		if l.Tree || l.Code {
+			mod(func(q *LoaderPlan) { q.Loads[i].Tree, q.Loads[i].Code = false, false })
 		}
 	}
 	// drop trailing packages that nothing imports any more, and decoy files
